@@ -454,4 +454,15 @@ theorem strict_implies_loop (parseKV : Bytes → Option Bytes) : ∀ (n : Nat) (
         · simp at h
       · simp at h
 
+/-- the size `LogEvent.WritableSize()` computes is the number of bytes `LogEvent.Marshal` writes, for every event -/
+theorem writableSize_eq_marshal_length (e : Event) : e.writableSize = e.marshal.length := by
+  obtain ⟨_, _, h3, _, h5, _⟩ := header_facts
+  by_cases hf : e.fields.length > 0
+  · have hh : e.header = Generated.C01.recVersion ||| Generated.C01.headerFieldsBit := by simp [Event.header, hf]
+    simp [Event.writableSize, Event.marshal, hh, h3, hf, be_length, marshalBytes_length]
+    omega
+  · have hh : e.header = Generated.C01.recVersion := by simp [Event.header, hf]
+    simp [Event.writableSize, Event.marshal, hh, h5, hf, be_length, marshalBytes_length]
+    omega
+
 end Logrange.WireRT
